@@ -291,40 +291,10 @@ theorem opImg_wf (p : Profile) (op : String × Bytes) (h : HOpOk op) :
     rw [hn, if_neg (by decide)]
     exact hi
 
-/-- builder-state invariant: every stored tag image is well-formed -/
-def StWF (st : BState) : Prop := ∀ slot, ∀ img ∈ st.get slot, C06.WFImg img.asBytes
-
-theorem stwf_empty : StWF [] := by
-  intro slot img h; simp [BState.get] at h
-
-theorem stwf_put (st : BState) (slot : String) (multi : Bool) (img : Img) (h : StWF st) (hw : C06.WFImg img.asBytes) :
-    StWF (st.put slot multi img) := by
-  intro s i hi
-  by_cases hs : s = slot
-  · subst hs
-    rw [C06.slot_put_same] at hi
-    cases multi
-    · simp at hi; subst hi; exact hw
-    · simp at hi
-      rcases hi with hi | hi
-      · exact h s i hi
-      · subst hi; exact hw
-  · rw [C06.slot_put_other st slot s multi img hs] at hi
-    exact h s i hi
-
 /-- the header builder never panics on accepted operations, and every stored image stays well-formed -/
 theorem runOps_wf (p : Profile) (slots : List (String × Bool)) (ops : List (String × Bytes)) (hops : ∀ op ∈ ops, HOpOk op) :
-    ∀ st, StWF st → ∃ st', runOps p slots st ops = .ok st' ∧ StWF st' := by
-  induction ops with
-  | nil => intro st h; exact ⟨st, rfl, h⟩
-  | cons op rest ih =>
-    intro st h
-    obtain ⟨img, hi, hw⟩ := opImg_wf p op (hops op (by simp))
-    obtain ⟨name, blob⟩ := op
-    simp only at hi
-    unfold runOps
-    rw [hi]
-    exact ih (fun o ho => hops o (by simp [ho])) _ (stwf_put st name _ img h hw)
+    ∀ st, C06.StWF st → ∃ st', runOps p slots st ops = .ok st' ∧ C06.StWF st' :=
+  C06.runOps_wf_of p slots HOpOk (fun op h => opImg_wf p op h) ops hops
 
 /-- C12 END TO END (model): for EVERY sequence of accepted builder operations (any of the ten slots, any argument values,
     any order, any repetitions) and either architecture, `Builder::build` stores per slot the image of the last call, every
@@ -347,7 +317,7 @@ theorem buildHdr_wellformed (p : Profile) (arch : Nat) (harch : arch = 0 ∨ arc
         hload p false bytes = .ok (.ok ⟨HMAGIC, arch, total, ck⟩) ∧
         Spec.tagsOf .ht ((bytes.take total).drop 16) =
           (C06.itemsOf .ht imgs 0 ++ [⟨imgs.flatten.length, 0, 8, 0⟩], .done)) := by
-  obtain ⟨st, hrun, hst⟩ := runOps_wf p hdrSlots ops hops [] stwf_empty
+  obtain ⟨st, hrun, hst⟩ := runOps_wf p hdrSlots ops hops [] C06.stwf_empty
   refine ⟨st, hrun, ?_⟩
   intro imgs
   have hwf : ∀ b ∈ imgs, C06.WFImg b := by
